@@ -23,7 +23,7 @@ RULES = {
     'B2': mutate.rule_B2, 'WB': mutate.rule_WB, 'N1': mutate.rule_N1, 'N2': mutate.rule_N2, 'N5': mutate.rule_N5, 'D5': mutate.rule_D5, 'RNG': mutate.rule_RNG, 'IDX1': mutate.rule_IDX1, 'SLN': mutate.rule_SLN,
     'E5': ingest.rule_E5, 'CHOKE': ingest.rule_CHOKE, 'LV': ingest.rule_LV, 'WIN': ingest.rule_WIN,
     'G2': mode.rule_G2, 'MIRROR': mode.rule_MIRROR, 'G3': mode.rule_G3, 'G5': mode.rule_G5, 'E8': mode.rule_E8,
-    'H4': misc.rule_H4, 'ESC': misc.rule_ESC, 'DELEG': misc.rule_DELEG, 'PK': misc.rule_PK, 'INTEX': misc.rule_INTEX, 'LZ': misc.rule_LZ,
+    'H4': misc.rule_H4, 'ESC': misc.rule_ESC, 'DELEG': misc.rule_DELEG, 'PK': misc.rule_PK, 'INTEX': misc.rule_INTEX, 'LZ': misc.rule_LZ, 'REP': misc.rule_REP, 'STALE': misc.rule_STALE,
     'H5a': luts.rule_H5a, 'H5b': luts.rule_H5b, 'H5c': luts.rule_H5c,
 }
 
@@ -148,7 +148,7 @@ _p('C01', ['K', 'E6', 'J2', 'A10', 'A1', 'A11', 'SLN', 'IDX1'],
    explanation="Class-provenance typing of every return of the operator/slicing methods per concrete class; sibling guard "
                "comparison; call-graph reachability to field reads.")
 
-_p('C06', ['C', 'POSW', 'B1', 'POST', 'RB', 'NOMOVE', 'E7', 'D2', 'J1', 'J2', 'OPT', 'CHOKE', 'SCALE'],
+_p('C06', ['C', 'POSW', 'B1', 'POST', 'RB', 'NOMOVE', 'E7', 'D2', 'J1', 'J2', 'OPT', 'CHOKE', 'SCALE', 'STALE'],
    decided=["0 <= pos <= len in its structural part: _pos is definitely assigned on every escaping stream object; every "
             "_pos write is 0, the length, a validated/restored/found position, pos+len after a validated pos, or a "
             "bounded/checked increment; every effect that can change a BitStream's length is covered by stream-level "
@@ -344,7 +344,7 @@ _p('C19', ['ESC', 'POST', 'H3', 'N2', 'CHOKE', 'I', 'LZ'],
    explanation="Literal census for escape sequences with branch placement, construction-site check of Colour, table and "
                "division obligations of the pretty printer.")
 
-_p('C05', ['PK', 'LV', 'F1', 'F2', 'H1'],
+_p('C05', ['PK', 'LV', 'F1', 'F2', 'H1', 'REP', 'STALE'],
    decided=["a token string with embedded =value parts and pack() with separate values go through the same token parser "
             "(tokenparser) and the same token builder (bitstore_from_token); packing and unpacking share the same "
             "bracket/multiplier/struct-code expansion (preprocess_tokens)",
@@ -352,10 +352,13 @@ _p('C05', ['PK', 'LV', 'F1', 'F2', 'H1'],
             "(StopIteration handlers, left-over check, length comparison, ValueError conversion)",
             "the packed pieces are concatenated in token order (reversed only under lsb0)",
             "the memoised parsers depend on nothing but their arguments and their cached token lists are never mutated",
-            "struct-style codes expand through tables that agree with struct"],
-   declined=["that unpack inverts pack for every format and value, that lengths add up, that 'n*(f)' equals f written n "
-             "times and that formats compose: string/regex manipulation and integer encoding on run-time values — no static "
-             "argument of this family bounds them"],
+            "struct-style codes expand through tables that agree with struct",
+            "'n*f' equals f written n times, in its structural part: a multiplier in front of a multi-code struct token repeats the "
+            "whole group in order (classification of how preprocess_tokens grows its result), not each code",
+            "unpack of a format with one length-less token: its length comes from the position reached when it is read (no "
+            "remaining-bits quantity computed before the read loop and used inside it), so self-delimiting tokens in front of it count"],
+   declined=["that unpack inverts pack for every format and value, that lengths add up, bracket expansion ('n*(f)') and that formats "
+             "compose: string/regex manipulation and integer encoding on run-time values — no static argument of this family bounds them"],
    explanation="Call-graph reachability showing that the three routes share one parser and one builder; handler and guard "
                "structure of pack(); purity and non-mutation of the memoised parsers.")
 
